@@ -174,9 +174,25 @@ def body(ch):
     suffix = '%' if model == 'percentage' else ''
     q = pre + lit + suffix + post
     d, r, sig = expected_decimal(n, frac, neg)
-    res = M[(cul, model)].parse(q)
+    # a sliver of the space is parsed on a fresh thread: the value must not depend on the calling thread
+    on_thread = ch.pick('thread', ('caller', 'fresh')) if (pool == 'small' and n < 12 and frac in ('5', '125') and not pre) else 'caller'
+    if on_thread == 'fresh':
+        import threading
+        box = {}
+        t = threading.Thread(target=lambda: box.setdefault('r', M[(cul, model)].parse(q)))
+        t.start()
+        t.join()
+        res = box.get('r') or []
+    else:
+        res = M[(cul, model)].parse(q)
     got = [(e.start, e.end, e.text, e.type_name, (e.resolution or {}).get('value')) for e in res]
     cls = '%s|%s|%s%s' % (cul, model, form, '+decimal' if frac else '')
+    if on_thread == 'fresh':
+        # attribute a failure to the thread only when the same call is right on the calling thread
+        same = M[(cul, model)].parse(q)
+        if [(e.start, e.end, e.text, (e.resolution or {}).get('value')) for e in same] != \
+                [(e.start, e.end, e.text, (e.resolution or {}).get('value')) for e in res]:
+            cls += '|differs-on-a-fresh-thread'
     if (pre, post) in M[('amb', cul)]:
         # attribute the failure to the neighbouring word only if the same literal is handled correctly alone
         alone = M[(cul, model)].parse(lit + suffix)
